@@ -803,12 +803,23 @@ Proof.
   { split; auto. rewrite (kids_ok_container _ Hc). now rewrite Hk. }
   destruct c as [src index|index|i|ks].
   - unfold container_insert.
-    destruct (match index with None => Some (length (rkids r)) | Some i => _ end) as [idx|];
-      [|intros E; inversion E; subst; auto].
-    destruct (match src with Obj r0 => _ | Text ps => _ end) as [[k|]|res0];
-      try (intros E; inversion E; subst; auto; fail).
-    destruct (kin k (forbidden_in (rkind r))) eqn:Ef; intros E; inversion E; subst; auto.
-    split; auto. apply set_kids_ok; auto. apply anyk_insert_at; auto. now apply forbidden_in_table.
+    set (pre := match src with Text ps => _ | Obj _ => None end).
+    assert (Hfin : forall k idx,
+               (if kin k (forbidden_in (rkind r)) then (r, log_error rx HierarchyRequestErr)
+                else if is_kind PAGE_RULE r && page_merges_duplicates && kind_beq k MARGIN_RULE && kin MARGIN_RULE (rkids r)
+                     then (r, Ret (first_pos (fun x => kind_beq x MARGIN_RULE) (rkids r)))
+                     else (set_kids r (insert_at idx k (rkids r)), Ret (Some idx))) = (r', res) ->
+               rkind r' = rkind r /\ kids_ok r' = true).
+    { intros k idx. destruct (kin k (forbidden_in (rkind r))) eqn:Ef; [intros E; inversion E; subst; auto|].
+      destruct (is_kind PAGE_RULE r && page_merges_duplicates && kind_beq k MARGIN_RULE && kin MARGIN_RULE (rkids r));
+        intros E; inversion E; subst; auto.
+      split; auto. apply set_kids_ok; auto. apply anyk_insert_at; auto. now apply forbidden_in_table. }
+    destruct pre as [[k|res0]|]; try (intros E; inversion E; subst; auto; fail);
+      (destruct (match index with None => Some (length (rkids r)) | Some i => _ end) as [idx|];
+       [|intros E; inversion E; subst; auto]).
+    + apply Hfin.
+    + destruct (match src with Obj r0 => _ | Text ps => _ end) as [[k|]|res0];
+        try (intros E; inversion E; subst; auto; fail). apply Hfin.
   - apply Hdel.
   - destruct (Nat.ltb i (length (rkids r))); [apply Hdel | intros E; inversion E; subst; auto].
   - unfold container_text. destruct (kind_beq (rkind r) MEDIA_RULE) eqn:Em.
@@ -891,11 +902,18 @@ Proof.
       intros E; inversion E; subst; auto. intros [e H]; discriminate. }
   destruct c as [src index|index|i|ks]; simpl.
   - unfold container_insert.
-    destruct (match index with None => Some (length (rkids r)) | Some i => _ end) as [idx|];
-      [|intros E; inversion E; subst; auto].
-    destruct (match src with Obj r0 => _ | Text ps => _ end) as [[k|]|res0];
-      try (intros E; inversion E; subst; auto; fail).
-    destruct (kin k (forbidden_in (rkind r))); intros E; inversion E; subst; auto. discriminate.
+    set (pre := match src with Text ps => _ | Obj _ => None end).
+    destruct pre as [[k|res0]|]; try (intros E; inversion E; subst; auto; fail);
+      (destruct (match index with None => Some (length (rkids r)) | Some i => _ end) as [idx|];
+       [|intros E; inversion E; subst; auto]).
+    + destruct (kin k (forbidden_in (rkind r))); [intros E; inversion E; subst; auto|].
+      destruct (is_kind PAGE_RULE r && page_merges_duplicates && kind_beq k MARGIN_RULE && kin MARGIN_RULE (rkids r));
+        intros E; inversion E; subst; auto; discriminate.
+    + destruct (match src with Obj r0 => _ | Text ps => _ end) as [[k|]|res0];
+        try (intros E; inversion E; subst; auto; fail).
+      destruct (kin k (forbidden_in (rkind r))); [intros E; inversion E; subst; auto|].
+      destruct (is_kind PAGE_RULE r && page_merges_duplicates && kind_beq k MARGIN_RULE && kin MARGIN_RULE (rkids r));
+        intros E; inversion E; subst; auto; discriminate.
   - intros E Hr. destruct res as [[v|]|e| |]; try discriminate. eapply Hdel; eauto.
   - destruct (Nat.ltb i (length (rkids r))).
     + intros E Hr. destruct res as [[v|]|e| |]; try discriminate. eapply Hdel; eauto.
